@@ -9,7 +9,7 @@
    Proofs/ConfigFacts (approved_build, counter_entry, stack_entry). *)
 From Coq Require Import List ZArith NArith Bool.
 From Tele Require Import Lib.Bytes Lib.Str Lib.Assoc Lib.Calendar Model.Config Model.ApprovalSpec Model.Report
-  Model.Approval Proofs.ConfigFacts Proofs.AggregateFacts Proofs.ReportFacts Proofs.ApprovalFacts Proofs.ApprovalOracle Proofs.ReportPrograms.
+  Model.Approval Proofs.ConfigFacts Proofs.AggregateFacts Proofs.ReportFacts Proofs.ApprovalFacts Proofs.ApprovalOracle Proofs.ReportPrograms Proofs.ApprovalReports.
 Import ListNotations.
 From Coq Require Import String. Open Scope string_scope. Open Scope N_scope. Open Scope list_scope.
 
@@ -159,6 +159,58 @@ Theorem C11_upload_item_verdict : forall c x ps i cs0 ss0 k v,
    exists cs ss, In (i, (cs, ss)) (filter_upload c x ps) /\ In (k, v) ss).
 Proof. exact upload_item_verdict. Qed.
 Print Assumptions C11_upload_item_verdict.
+
+(* ---- Program builds are told apart by all five identity fields, the
+   Program path in full: the values uploaded for build i are sums over the
+   files whose identity IS i (C01_upload_values); a file of another program -
+   even one with the same base name, version, Go version and platform -
+   contributes nothing to them and is judged (by all three deciders) on its own. *)
+Theorem C11_values_from_same_identity_only : forall files i k v,
+  In v (spec_entries files i k) <-> exists f, In f files /\ f_ident f = i /\ In (k, v) (f_counts f).
+Proof. exact spec_entries_in. Qed.
+Print Assumptions C11_values_from_same_identity_only.
+
+Theorem C11_other_program_contributes_nothing : forall files g i k,
+  f_ident g <> i -> spec_entries (g :: files) i k = spec_entries files i k.
+Proof. exact other_program_contributes_nothing. Qed.
+Print Assumptions C11_other_program_contributes_nothing.
+
+(* ---- Viewer, weekly reports (newTelemetryReport).  For every program of a
+   report whose Counters keys are plain names (every report the uploader
+   writes): the set verdict is the documented one; the listed names are
+   exactly the plain counters that are not approved, so no approved counter or
+   stack is ever called excluded ... *)
+Theorem C11_viewer_report_names : forall u p,
+  approved_build u (fst p) -> plain_keys p ->
+  summary_names (viewer_report_summary (new_config u) p) =
+  filter (fun k => negb (approved_counterb u (id_program (fst p)) k)) (map fst (fst (snd p))).
+Proof. exact viewer_report_names. Qed.
+Print Assumptions C11_viewer_report_names.
+
+Theorem C11_viewer_report_no_false_claim : forall u p n,
+  approved_build u (fst p) -> plain_keys p ->
+  In n (summary_names (viewer_report_summary (new_config u) p)) ->
+  In n (map fst (fst (snd p))) /\ approved_counterb u (id_program (fst p)) n = false.
+Proof. exact viewer_report_no_false_claim. Qed.
+Print Assumptions C11_viewer_report_no_false_claim.
+
+(* ... and the executable report oracle reports nothing on the model except
+   the omitted-stack class, which needs an unapproved stack in the report. *)
+Theorem C11_viewer_report_oracle_model : forall u p, plain_keys p ->
+  forall cl, In cl (viewer_report_check u p (viewer_report_summary (new_config u) p)) ->
+  cl = AViewerReportStackOmitted /\ approved_buildb u (fst p) = true /\
+  exists k, In k (map fst (snd (snd p))) /\ approved_stackb u (id_program (fst p)) k = false.
+Proof. exact viewer_report_check_model. Qed.
+Print Assumptions C11_viewer_report_oracle_model.
+
+(* finding 19: the report view does not examine the Stacks of a report: an
+   unapproved stack counter of a local report is not mentioned although the uploader drops it *)
+Theorem C11_viewer_report_stack_refuted :
+  exists u p, approved_buildb u (fst p) = true /\
+    (exists k v, In (k, v) (snd (snd p)) /\ approved_stackb u (id_program (fst p)) k = false) /\
+    viewer_report_summary (new_config u) p = SClean.
+Proof. exact viewer_report_stack_refuted. Qed.
+Print Assumptions C11_viewer_report_stack_refuted.
 
 (* ---- Non-vacuity *)
 Definition ex_cfg : upload_cfg :=
